@@ -11,3 +11,5 @@ import Properties.C14
 import Properties.C15
 import Properties.C16
 import Properties.C19
+import Properties.C12
+import Properties.C13
